@@ -52,3 +52,28 @@ Example c14_nonvacuous :
   ends_with_lf (lines_bytes MCRLF [mkLine (bs "a") CRLF; mkLine (bs "c") NoNL]) = false /\
   lines_bytes MCRLF [mkLine (bs "a") LF; mkLine (bs "c") NoNL] = bs "a" ++ [13%N; 10%N] ++ bs "c".
 Proof. vm_compute. auto. Qed.
+
+(* ===== merged from Properties_LinesBack.v ===== *)
+From PatchV Require Import Proofs_LinesBack.
+
+(* preserve, at the level of bytes: what LineWriter writes, read again by File::get_line, is exactly the list of lines
+   written - same contents, every line with the terminator class it was written with, the last one without a newline
+   exactly when it was written without.  Hypotheses: the lines are well formed (WfLines, which split_lines_wf gives for
+   every file read) and no LF-terminated line has content ending in a carriage return (nocr: such a line - only an added
+   line of a patch can be one - reads back as a CRLF line, so the statement would be false for it). *)
+Theorem split_lines_of_written : forall ls,
+  WfLines ls -> Forall nocr ls -> split_lines (lines_bytes MKeep ls) = ls.
+Proof. exact Proofs_LinesBack.split_lines_of_written. Qed.
+Print Assumptions split_lines_of_written.
+
+Example written_nonvacuous :
+  let ls := [mkLine (bs "a") CRLF; mkLine [] LF; mkLine (bs "b") LF; mkLine (bs "c") NoNL] in
+  WfLines ls /\ Forall nocr ls /\ split_lines (lines_bytes MKeep ls) = ls /\
+  (* the excluded line: content ending in CR, terminated by LF *)
+  split_lines (lines_bytes MKeep [mkLine (bs "a" ++ [13%N]) LF]) = [mkLine (bs "a") CRLF].
+Proof.
+  cbv zeta. split; [|split; [|split; reflexivity]].
+  - repeat (apply Wf_cons; [unfold no_lf; cbn; intuition discriminate|discriminate|]).
+    apply Wf_last; [unfold no_lf; cbn; intuition discriminate|intros _; discriminate].
+  - repeat constructor; unfold nocr; cbn; intros; discriminate.
+Qed.
